@@ -35,30 +35,45 @@ fn c20_prelude_floor_split() {
 
 
 // Measured and dropped (DESIGN.md section 7): whole-function harnesses over `DateTime::from` (time of day for every
-// instant; Rata-Die equality on a +-2^32 s window) and a symbolic `Display` harness each exceed 20 min in CBMC
+// instant; Rata-Die equality on a +-2^32 s window) and a SYMBOLIC `Display` harness each exceed 20 min in CBMC
 // (64-bit div/mod chains; core::fmt). The calendar body is proved by Verus instead; Display padding is assumed.
 
-// exec mirror of the Verus spec functions (contracts/C20/civil_spec.verus.rs); years fit i32 in the window
-fn k_is_leap(y: i32) -> bool { y.rem_euclid(4) == 0 && (y.rem_euclid(100) != 0 || y.rem_euclid(400) == 0) }
-fn k_cum(m: i32) -> i32 { match m { 1 => 0, 2 => 31, 3 => 59, 4 => 90, 5 => 120, 6 => 151, 7 => 181, 8 => 212, 9 => 243, 10 => 273, 11 => 304, _ => 334 } }
-fn k_dim(y: i32, m: i32) -> i32 { if m == 2 { if k_is_leap(y) { 29 } else { 28 } } else if m == 4 || m == 6 || m == 9 || m == 11 { 30 } else { 31 } }
-fn k_unix_day(y: i32, m: i32, d: i32) -> i32 {
+
+// Measured and dropped as well: even a Display harness over three CONCRETE instants does not finish in 900 s
+// (core::fmt integer formatting under CBMC). Display layout stays an assumption.
+
+// Whole `DateTime::from(SystemTime)` on concrete boundary instants (the last/first day of every cycle the
+// decomposition distinguishes, both sides of the epoch, fractional seconds). Concrete inputs constant-fold, so this is
+// cheap; it is a sampled stand-in that yields a replayable witness when the calendar body is wrong at a cycle boundary
+// (the unbounded statement is the Verus proof of the same code).
+fn k_is_leap(y: i64) -> bool { y.rem_euclid(4) == 0 && (y.rem_euclid(100) != 0 || y.rem_euclid(400) == 0) }
+fn k_cum(m: i64) -> i64 { match m { 1 => 0, 2 => 31, 3 => 59, 4 => 90, 5 => 120, 6 => 151, 7 => 181, 8 => 212, 9 => 243, 10 => 273, 11 => 304, _ => 334 } }
+fn k_dim(y: i64, m: i64) -> i64 { if m == 2 { if k_is_leap(y) { 29 } else { 28 } } else if m == 4 || m == 6 || m == 9 || m == 11 { 30 } else { 31 } }
+fn k_unix_day(y: i64, m: i64, d: i64) -> i64 {
     365 * (y - 1) + (y - 1).div_euclid(4) - (y - 1).div_euclid(100) + (y - 1).div_euclid(400)
         + k_cum(m) + (if m > 2 && k_is_leap(y) { 1 } else { 0 }) + d - 719163
 }
-// Paired with the unbounded Verus proof of the same extracted text: yields a replayable counterexample
-// when the calendar code is wrong inside the window.
-// TIER: thorough
-// BOUND: t within +-2^32 s (~1833..2106; includes the 2000 leap year and the 1900/2100 non-leap centuries)
+fn ok_at(t: i64, nanos: u32) -> bool {
+    let st = if t >= 0 { UNIX_EPOCH + Duration::new(t as u64, nanos) } else { UNIX_EPOCH - Duration::new((-t) as u64, 0) + Duration::new(0, nanos) };
+    let r = DateTime::from(st);
+    let (y, m, d) = (r.year, r.month as i64, r.day as i64);
+    m >= 1 && m <= 12 && d >= 1 && d <= k_dim(y, m) && r.hour < 24 && r.minute < 60 && r.second < 60 && r.nanos == nanos
+        && k_unix_day(y, m, d) * 86_400 + r.hour as i64 * 3600 + r.minute as i64 * 60 + r.second as i64 == t
+}
+// BOUND: 16 concrete instants at cycle boundaries (not symbolic)
 #[kani::proof]
-#[kani::unwind(14)]
-fn c20_civil_window_bounded() {
-    let t: i64 = nd();
-    kani::assume(t > -(1i64 << 32) && t < (1i64 << 32));
-    let r = __extracted_civil(t, 0);
-    kani::assume(r.year > -10_000 && r.year < 10_000);
-    let (y, m, d) = (r.year as i32, r.month as i32, r.day as i32);
-    assert!(m >= 1 && m <= 12 && d >= 1 && d <= k_dim(y, m), "C20.valid_date");
-    assert!(r.hour < 24 && r.minute < 60 && r.second < 60, "C20.time_ranges");
-    assert!(k_unix_day(y, m, d) as i64 * 86_400 + r.hour as i64 * 3600 + r.minute as i64 * 60 + r.second as i64 == t, "C20.instant_equals_fields");
+#[kani::unwind(18)]
+fn c20_boundary_instants_bounded() {
+    const DAY: i64 = 86_400;
+    // 2000-02-29 (last day of a 400-year cycle), 2000-03-01 (cycle start), 2100-02-28 / 03-01 (100-year boundary, not leap),
+    // 2004-02-29 / 03-01 (4-year boundary), 2001-02-28 / 03-01 (1-year boundary), 1600-02-29, 2400-02-29, 1900-02-28 / 03-01,
+    // the epoch, one second before it, a fractional instant before it, a far-future one
+    let ts: [i64; 16] = [951_782_400, 951_868_800, 4_107_456_000, 4_107_542_400, 1_078_012_800, 1_078_099_200, 983_318_400, 983_404_800,
+                         -11_670_998_400, 13_574_563_200, -2_203_977_600, -2_203_891_200, 0, -1, -86_401, 253_402_300_799];
+    let mut i = 0;
+    while i < 16 {
+        assert!(ok_at(ts[i], 0), "C20.boundary_instant.fields_are_the_calendar_date_of_the_instant");
+        assert!(ok_at(ts[i] + DAY - 1, 999_999_999), "C20.boundary_instant.last_second_of_that_day_with_fraction");
+        i += 1;
+    }
 }
